@@ -819,7 +819,7 @@ func describeCase(t task, a *acc) {
 			hist = append(hist, int64(f))
 		}
 		hist = append(hist, lpAlphabet[t.Lo])
-		fr := lpEncode(cfg.n, lpDecode(hist[len(hist)-1]))
+		fr := lpFrameBytes(cfg.n, hist[len(hist)-1])
 		ex["case"] = fmt.Sprintf("n=%d local=%v: %s", cfg.n, cfg.local, lpDescribe(cfg.n, hist))
 		ex["input_hex"] = inputHex(fr)
 		ex["len"] = len(fr)
@@ -827,7 +827,7 @@ func describeCase(t task, a *acc) {
 	}
 	if t.Only < 0 { // lp1 single (or an lpseq transition from the initial state)
 		cfg := lpConfigs[t.N]
-		fr := lpEncode(cfg.n, lpDecode(t.Lo))
+		fr := lpFrameBytes(cfg.n, t.Lo)
 		ex["case"] = fmt.Sprintf("n=%d local=%v: %s", cfg.n, cfg.local, lpDescribe(cfg.n, []int64{t.Lo}))
 		ex["input_hex"] = inputHex(fr)
 		ex["len"] = len(fr)
